@@ -68,11 +68,27 @@ def compare(case, m, r, spec):
         fails.append({"kind": "disagreement", "key": "model-rejects:" + str(m[1]), "summary": "model rejects (%s), implementation compiles" % m[1], "replay": rep})
     return fails
 
+def wrap_argument(rng, case):
+    """the same library with one literal argument k of a parameterised component written as the list [k]:
+    the argument must reach the template unchanged, where it cannot be used as a length, so the compile
+    must fail (it succeeds only if something on the way unwrapped or dropped the list)"""
+    import re
+    files = dict(case["files"])
+    cands = [(p, m) for p, t in files.items() if p.endswith(".sys") for m in re.finditer(r"=\s*(P\d+_\d+|\w+)\((\d+)\)\s*:", t)
+             if any(it["kind"] == "comp" and it["params"] and it["name"] == m.group(1) for it in case["_gen"].items.values())]
+    if not cands: return None
+    p, m = rng.choice(cands)
+    t = files[p]
+    files[p] = t[:m.start(2)] + "[" + m.group(2) + "]" + t[m.end(2):]
+    return {"files": files, "includes": case["includes"], "base": case["base"], "args": case["args"], "_changed": p}
+
 def run(tier, seed, build):
     rng = random.Random(seed * 149 + 2)
     n = 150 if tier == "quick" else 2000
     cases = [gen_case(rng) for _ in range(n)]
     impl = fw.run_impl("props.c02", "impl_case", [{k: v for k, v in c.items() if not k.startswith("_")} for c in cases], per_case_timeout=60)
+    wrapped = [w for w in (wrap_argument(rng, c) for c in cases) if w is not None][: max(10, n // 10)]
+    wimpl = fw.run_impl("props.c02", "impl_case", [{k: v for k, v in w.items() if not k.startswith("_")} for w in wrapped], per_case_timeout=60)
     model = fw.run_model([model_req(c, r.get("ctr0", 0) if isinstance(r, dict) else 0) for c, r in zip(cases, impl)])
     failures = []; nontrivial = set()
     dist = {"accepted": 0, "rejected": 0, "depth": {}, "files": {}, "with_includes": 0, "with_subdirs": 0, "with_params": 0, "shared_signals": 0, "starred_bindings": 0}
@@ -95,8 +111,13 @@ def run(tier, seed, build):
         if r["outcome"] == "ok" and spec is not None and any(len(e) > 2 for e in spec["equals"]):
             dist["shared_signals"] += 1
         if r["outcome"] == "ok" and len(c["files"]) >= 3: nontrivial.add(str(sorted(c["files"].items())))
-    return {"evaluations": len(cases), "distinct_nontrivial": len(nontrivial),
-            "rule": "libraries of generated components (incl. parameterised templates) and systems nested to depth 1-3, placed in the importing directory, in sub-directories (import a/b), or in include directories, with aliases, shared signals, stars on bindings and on port declarations, signals exported twice with different stars, decoy files of the same name in later directories; compiled from the parent directory with -I lists. Non-trivial = accepted with at least 3 files",
+    dist["list_arguments"] = len(wrapped)
+    for w, r in zip(wrapped, wimpl):
+        if isinstance(r, dict) and r.get("outcome") == "ok":
+            failures.append({"kind": "predicate", "key": "argument-changed", "summary": "an instance argument written as a list ([k]) in %s compiles: it did not reach the parameterised template unchanged" % w["_changed"],
+                             "replay": {"files": w["files"], "argv": "pepper-compiler %s %s %s" % (w["base"], " ".join(map(str, w["args"])), " ".join("-I " + i for i in w["includes"]))}})
+    return {"evaluations": len(cases) + len(wrapped), "distinct_nontrivial": len(nontrivial),
+            "rule": "libraries of generated components (incl. parameterised templates) and systems nested to depth 1-3, placed in the importing directory, in sub-directories (import a/b), or in include directories, with aliases, shared signals, stars on bindings and on port declarations, signals exported twice with different stars, decoy files of the same name (same kind and the other kind) in later directories; a tenth of the libraries again with one literal argument written as a list, which must be rejected; compiled from the parent directory with -I lists. Non-trivial = accepted with at least 3 files",
             "samples": [c["files"] for c in cases[:1]], "distribution": dist, "failures": failures}
 
 def replay(path):
